@@ -23,18 +23,26 @@ SPEC = {
              "fromLazy; shape / Ref / dense co-iteration traversals that are obtained and abandoned after k >= 0 "
              "elements; lazy fibers made with Fiber.fromIterator from caller-supplied producer classes of five "
              "state-keeping styles, put through a random sequence of complete / abandoned traversals, len, "
-             "fromLazy, project and prune). Non-trivial = the fiber stores at least one element and at least one traversal yields "
+             "fromLazy, project and prune; dense co-iteration of the fiber with 1-2 further operands of the same tree "
+             "level (leaf fibers, or upper-level fibers of 2-rank trees whose payloads are sub-fibers; free or "
+             "tensor-owned), by a consumer that only reads or that updates in place the scratch value it was handed "
+             "for an absent coordinate before asking for the next element, the lazily produced co-iteration fiber "
+             "traversed once or twice). Non-trivial = the fiber stores at least one element and at least one traversal yields "
              "at least one element; distinct = distinct case."),
     "shards": {"quick": 16, "thorough": 16},
     "min_counts": {"quick": {"evaluations": 300, "traversals": 4000, "yields_checked": 10000, "ref_traversals": 300,
                              "startpos_traversals": 300, "project_traversals": 200, "lazy_traversals": 100,
-                             "partial_traversals": 500, "producer_traversals": 1000, "producer_retraversals": 500}},
+                             "partial_traversals": 500, "producer_traversals": 1000, "producer_retraversals": 500,
+                             "coiter_traversals": 2000, "coiter_upper_traversals": 400, "coiter_retraversals": 400,
+                             "coiter_scratch_writes": 1500}},
     "assumptions": [
         "start_pos is generated only when valid: no element the traversal must yield lies before it, and (as the API asserts) 0 <= start_pos < len(coords)",
         "the domain of shape/active iteration is what getShape()/getActive() report (their correctness is C14's)",
         "decreasing projections are generated for fibers with leaf default 0 (the reversed view is a fresh lazy fiber)",
         "prune predicates return True/False only",
         "an abandoned traversal has visited exactly the coordinates it has delivered (k next() calls = k visits; k = 0 means the traversal object was only obtained)",
+        "a free upper-level co-iteration operand holds at least one sub-fiber (a free fiber can tell that its default is a fiber only from a payload it stores); empty upper-level operands are tensor-owned",
+        "a consumer's in-place update of a scratch value (the object delivered for a coordinate the operand does not have, non-Ref forms) is not expected to reach the operand or any later element; an update of a Ref-form reference is an update of the operand and only the identity of what is stored is compared",
         "a producer class given to Fiber.fromIterator delivers, per instance, its elements once in ascending order as CoordPayloads; it may keep that stream's state on the instance (set up in __init__); the lazy fiber declares a shape or an active range (the library asserts it cannot estimate one)",
     ],
 }
@@ -140,15 +148,32 @@ def _travs_for(rng, cfg, full):
     # lazy fibers made from a caller-supplied producer class (Fiber.fromIterator), traversed several times
     for style in (PRODUCER_STYLES if full else rng.sample(PRODUCER_STYLES, 2)):
         travs.append(["producer", {"style": style, "ops": [_producer_op(rng, lo, hi) for _ in range(rng.randint(2, 5))]}])
-    travs.append(["coiter", {"mode": rng.choice(["coiterShape", "coiterShapeRef", "coiterActiveShape", "coiterActiveShapeRef",
-                                                 "coiterRangeShape", "coiterRangeShapeRef"]),
-                             "other": gen.rand_leaf_spec(rng, max(hi, 1), 0.5, 0.2, cfg["default"]),
-                             "s": rng.randint(lo, hi), "e": rng.randint(lo, hi), "step": rng.choice([1, 2])}])
-    travs.append(["coiter", {"mode": rng.choice(["coiterShapeRef", "coiterActiveShapeRef", "coiterRangeShapeRef", "coiterRangeShape"]),
-                             "other": gen.rand_leaf_spec(rng, max(hi, 1), 0.5, 0.2, cfg["default"]),
-                             "s": rng.randint(lo, hi), "e": rng.randint(lo, hi), "step": rng.choice([1, 2]),
-                             "take": rng.choice([0, 1, 2, 3])}])
+    # dense co-iteration: 2 or 3 operands of the same tree level as the fiber (leaf fibers, or upper-level fibers
+    # whose payloads are sub-fibers), free or tensor-owned; the consumer either only reads what it is given or
+    # updates in place the scratch value it was given for an absent coordinate; the lazily produced co-iteration
+    # fiber is traversed once or twice
+    travs.append(["coiter", _coiter_args(rng, cfg, lo, hi, ["coiterShape", "coiterShapeRef", "coiterActiveShape",
+                                                            "coiterActiveShapeRef", "coiterRangeShape", "coiterRangeShapeRef"])])
+    travs.append(["coiter", _coiter_args(rng, cfg, lo, hi, ["coiterShape", "coiterActiveShape", "coiterRangeShape"])])
+    a = _coiter_args(rng, cfg, lo, hi, ["coiterShapeRef", "coiterActiveShapeRef", "coiterRangeShapeRef", "coiterRangeShape"])
+    a["take"] = rng.choice([0, 1, 2, 3])
+    travs.append(["coiter", a])
     return travs
+
+
+def _coiter_args(rng, cfg, lo, hi, modes):
+    others = []
+    for _ in range(rng.choice([1, 1, 2])):
+        if cfg["interior"]:
+            spec = gen.rand_tree_spec(rng, [max(hi, 1), 3], 0.5, 0.4, 0)
+            # a free upper-level fiber knows that its default is a fiber only from a sub-fiber it holds
+            own = rng.choice(["free", "tensor"]) if spec else "tensor"
+        else:
+            spec = gen.rand_leaf_spec(rng, max(hi, 1), 0.5, 0.2, cfg["default"])
+            own = rng.choice(["free", "free", "tensor"])
+        others.append({"spec": spec, "own": own})
+    return {"mode": rng.choice(modes), "others": others, "s": rng.randint(lo, hi), "e": rng.randint(lo, hi),
+            "step": rng.choice([1, 2]), "consumer": rng.choice(["read", "write"]), "passes": rng.choice([1, 1, 2])}
 
 
 def _producer_op(rng, lo, hi):
@@ -446,6 +471,141 @@ def _run_producer(ctx, f, watched, before, args):
     return total
 
 
+def _build_other(o, interior, d):
+    spec = o["spec"]
+    if o["own"] == "tensor":
+        top = max([c for c, _ in spec], default=0) + 1
+        if interior:
+            t = gen.tensor_from_spec(spec, ["M", "K"], shape=[top, 4], default=d)
+        else:
+            t = gen.tensor_from_spec(spec, ["K"], shape=[top], default=d)
+        return t.getRoot(), t
+    return gen.fiber_from_spec(spec, d), None
+
+
+def _run_coiter(ctx, f, t, args):
+    """Dense co-iteration: at every coordinate of the domain, a tuple with one entry per operand - the stored
+    payload object where the operand has the coordinate, else the default of the operand's rank (a scalar box
+    holding the default at a leaf rank, an empty fiber at an upper rank); for the Ref forms that default has
+    been inserted.  What the consumer does with the scratch values it was handed for absent coordinates does
+    not change what later coordinates or a later traversal of the same lazy fiber are presented with."""
+    mon, cfg, d = ctx.mon, ctx.cfg, ctx.d
+    interior = cfg["interior"]
+    m = args["mode"]
+    others = args.get("others")
+    if others is None:                                  # older replay files: one free leaf operand
+        if interior:
+            return 0
+        others = [{"spec": args["other"], "own": "free"}]
+    ops = [(f, t)] + [_build_other(o, interior, d) for o in others]
+    fibers = [x for x, _ in ops]
+    watched = [(tt if tt is not None else x) for x, tt in ops]
+    before = [snap(w) for w in watched]
+    ids_before = set()
+    for w in watched:
+        ids_before |= set(idset(w))
+    cs0 = [list(x.coords) for x in fibers]
+    orig = [dict(zip(x.coords, x.payloads)) for x in fibers]
+    cur = [dict(o) for o in orig]                       # what each operand stores, as the statement predicts it
+    ref = m.endswith("Ref")
+    write = args.get("consumer") == "write"
+    if "Range" in m:
+        lo, hi, step = args["s"], args["e"], args["step"]
+        dom = list(range(lo, hi, step))
+        res = getattr(Fiber, m)(fibers, lo, hi, step)
+    else:
+        lo, hi = _domain(f, m)
+        dom = list(range(lo, hi))
+        res = getattr(Fiber, m)(fibers)
+    what = m
+    k = args.get("take")
+    if k is not None:
+        k = min(k, len(dom))
+        dom = dom[:k]
+        what += "+partial"
+        mon.count("partial_traversals")
+    if interior:
+        what += "[upper]"
+
+    def is_default(pv):
+        if interior:
+            return isinstance(pv, Fiber) and not pv.isLazy() and len(pv.coords) == 0
+        return isinstance(pv, Payload) and not isinstance(pv.value, (Payload, Fiber)) and pv.value == d
+
+    total = 0
+    for trip in range(args.get("passes", 1)):
+        mon.count("traversals")
+        mon.count("coiter_traversals")
+        if interior:
+            mon.count("coiter_upper_traversals")
+        if trip:
+            mon.count("coiter_retraversals")
+        # consume element by element: the consumer acts on an element before the next one is requested
+        got = []
+        bad_shape = False
+        if k != 0:
+            it = iter(res)
+            for el in it:
+                if len(got) >= len(dom) + 5:
+                    mon.violation(f"{what}:runaway", f"{what} yielded more than {len(dom) + 5} elements")
+                    break
+                c, v = el.coord, unbox(el.payload)
+                got.append(c)
+                if len(got) > len(dom) or c != dom[len(got) - 1]:
+                    break                               # reported as a coordinate mismatch below
+                if not mon.check(isinstance(v, tuple) and len(v) == len(fibers), f"{what}:payload-shape",
+                                 f"{what} at {c}: {v!r} is not a {len(fibers)}-tuple"):
+                    bad_shape = True
+                    break
+                scratch = []
+                for side, pv in enumerate(v):
+                    if c in cur[side]:
+                        mon.check(pv is cur[side][c], f"{what}:payload-identity",
+                                  f"{what} at {c}: operand {side} payload is not the stored object")
+                    else:
+                        ok = mon.check(is_default(pv) and id(pv) not in ids_before, f"{what}:default-value",
+                                       f"{what} at absent {c} (traversal #{trip + 1}, consumer {args.get('consumer')}): operand {side} "
+                                       f"was presented with {pv!r}, the default is {'an empty fiber' if interior else repr(d)}; "
+                                       f"domain {dom}, operands store {cs0}")
+                        if ref:
+                            cur[side][c] = pv
+                        if ok:
+                            scratch.append(pv)
+                if write:
+                    for pv in scratch:
+                        mon.count("coiter_scratch_writes")
+                        if interior:
+                            pv.append(1, 5)
+                        else:
+                            pv += 10
+                if k is not None and len(got) >= k:
+                    break
+            if k is not None and hasattr(it, "close"):
+                it.close()
+        mon.count("yields_checked", len(got))
+        total += len(got)
+        if bad_shape:
+            break
+        clause = "coords" if trip == 0 else "reiteration"
+        if not mon.check(got == dom, f"{what}:{clause}", f"{what} (traversal #{trip + 1} of the co-iteration fiber) yielded {got} expected {dom}"):
+            break
+    for side, (x, tt) in enumerate(ops):
+        if ref:
+            now = dict(zip(x.coords, x.payloads))
+            want = sorted(set(cs0[side]) | set(dom))
+            mon.check(list(x.coords) == want, f"{what}:inserted-coords",
+                      f"{what} over {dom}: operand {side} coords afterwards {list(x.coords)}, expected {want}")
+            for c, q in cur[side].items():
+                mon.check(now.get(c) is q, f"{what}:ref-not-stored" if c not in orig[side] else f"{what}:disturbed-existing",
+                          f"{what}: operand {side} at {c} does not store the object that was yielded / stored before")
+            if tt is not None:
+                pr = RC(tt)
+                mon.check(not pr, f"{what}:rank-lists", f"{what}: operand {side}: tensor rank lists inconsistent afterwards: {pr}")
+        else:
+            mon.check(snap(watched[side]) == before[side], f"{what}:modified-operand", f"{what} changed operand {side}")
+    return total
+
+
 def _valid_startpos(f, d, p, s, e):
     if p >= len(f.coords):
         return False
@@ -633,51 +793,7 @@ def _run_trav(ctx, mode, args):
         mon.check(snap(watched) == before, f"{what}:modified-operand", f"{what} changed its operand")
         return len(a)
     elif mode == "coiter":
-        if interior:
-            return 0
-        m = args["mode"]
-        g = gen.fiber_from_spec(args["other"], d)
-        gs = dict(zip(g.coords, g.payloads))
-        gcs = list(g.coords)
-        if "Range" in m:
-            lo, hi, step = args["s"], args["e"], args["step"]
-            dom = list(range(lo, hi, step))
-            res = getattr(Fiber, m)([f, g], lo, hi, step)
-        else:
-            lo, hi = _domain(f, m)
-            dom = list(range(lo, hi))
-            res = getattr(Fiber, m)([f, g])
-        what = m
-        k = args.get("take")
-        if k is not None:
-            k = min(k, len(dom))
-            dom = dom[:k]
-            what += "+partial"
-            mon.count("partial_traversals")
-        got = _take(mon, res, len(dom) + 5, what, k)
-        mon.count("traversals")
-        mon.count("yields_checked", len(got))
-        ok = mon.check([c for c, _ in got] == dom, f"{what}:coords", f"{what} yielded {[c for c, _ in got]} expected {dom}")
-        if ok:
-            nowf, nowg = dict(zip(f.coords, f.payloads)), dict(zip(g.coords, g.payloads))
-            for c, q in got:
-                v = unbox(q)
-                if not mon.check(isinstance(v, tuple) and len(v) == 2, f"{what}:payload-shape", f"{what} at {c}: {v!r}"):
-                    continue
-                for side, pv, st, now in (("0", v[0], stored, nowf), ("1", v[1], gs, nowg)):
-                    if c in st:
-                        mon.check(pv is st[c], f"{what}:payload-identity", f"{what} at {c}: operand {side} payload is not the stored object")
-                    elif m.endswith("Ref"):
-                        mon.check(now.get(c) is pv and unbox(pv) == d, f"{what}:ref-not-stored", f"{what} at {c}: operand {side} reference not inserted")
-                    else:
-                        mon.check(isinstance(pv, Payload) and pv.value == d and id(pv) not in ids_before, f"{what}:default-value",
-                                  f"{what} at absent {c}: operand {side} delivered {pv!r}")
-        if m.endswith("Ref"):
-            mon.check(list(f.coords) == sorted(set(cs) | set(dom)) and list(g.coords) == sorted(set(gcs) | set(dom)),
-                      f"{what}:inserted-coords", f"{what}: coords afterwards {f.coords} / {g.coords}")
-        else:
-            mon.check(snap(watched) == before, f"{what}:modified-operand", f"{what} changed its first operand")
-        return len(got)
+        return _run_coiter(ctx, f, t, args)
     elif mode == "producer":
         return _run_producer(ctx, f, watched, before, args)
     else:
